@@ -54,7 +54,7 @@ theorem token_span_trimmed (p : Gen.Pat) (txt : List Nat) (m : Nat × Nat × Cap
   obtain ⟨s, e, cs⟩ := m
   simp [tokOfMatch]
 
-theorem length_dropWhile_le' (q : Nat → Bool) : ∀ l : List Nat, (l.dropWhile q).length ≤ l.length := by
+theorem length_dropWhile_le_aux (q : Nat → Bool) : ∀ l : List Nat, (l.dropWhile q).length ≤ l.length := by
   intro l
   induction l with
   | nil => simp
@@ -62,7 +62,7 @@ theorem length_dropWhile_le' (q : Nat → Bool) : ∀ l : List Nat, (l.dropWhile
 
 theorem rstripLen_le (s : List Nat) : rstripLen s ≤ s.length := by
   unfold rstripLen
-  have := length_dropWhile_le' isPySpace s.reverse
+  have := length_dropWhile_le_aux isPySpace s.reverse
   simpa using this
 
 end QuickAdd.C09
